@@ -55,6 +55,9 @@ def render(lines, rnd, variant):
             out.append(indent * 2 + "INDEX %s %s" % (("%02d" % ln["n"]) if (lead0 or ln["n"] > 9) else str(ln["n"]), mmssff(ln["sectors"])))
     if extra:
         out.append("")
+    if (variant // 32) % 2 == 1:
+        # blanks after the last token of a line are spacing too
+        out = [ln + rnd.choice([" ", "\t", "  ", " \t "]) if ln else ln for ln in out]
     text = ("\r\n" if crlf else "\n").join(out) + ("\r\n" if crlf else "\n")
     return text, isrcs, catalog
 
@@ -83,7 +86,7 @@ def run(pid):
     items = []
     iid = 0
     for s in sheets:
-        for variant in ([rnd.randint(0, 31)] if t == "quick" else [rnd.randint(0, 31), rnd.randint(0, 31), 0]):
+        for variant in ([rnd.randint(0, 63)] if t == "quick" else [rnd.randint(0, 63), rnd.randint(0, 63), 0]):
             iid += 1
             text, isrcs, catalog = render(s["lines"], rnd, variant)
             items.append({"id": iid, "variant": variant, "text": text, "total": s["expected"]["leadout"] * 588, "expected": s["expected"],
